@@ -335,6 +335,23 @@ def exec_state(df, st, part, sid=0):
         part.sample({"construct-failed": wit(exc=repr(ex))})
         return
     _SCALE_K[id(field)] = f["scale"]["k"]
+    if obs["ok"] and sid % 2 == 0:
+        # the field has been plotted BEFORE, while every cell was valid and the values were others; the mask and the values
+        # examined below arrive through in-place writes afterwards.  "Cells that are invalid ... are not drawn" and "exactly
+        # the field's values" speak about the field at the time of the plot (seeded change C20-13 memoised the mask-as-field
+        # used as the default filter and dropped it only in the `valid` setter).
+        try:
+            keep_v, keep_a = field.valid.copy(), field.array.copy()
+            field.valid[...] = True
+            field.array[...] = 1.0
+            try:
+                call_plot(field, afield, act, colorwheel=False)
+            finally:
+                field.valid[...] = keep_v
+                field.array[...] = keep_a
+                close_all()
+        except Exception:  # noqa: BLE001  (read-only arrays: the field is left as it is)
+            pass
     s0, a0 = snapshot(field), snapshot(afield)
     try:
         ok, exc, rec, ax, fig = call_plot(field, afield, act, colorwheel=(sid % 11 == 0))
